@@ -279,6 +279,13 @@ func (w *World) InstallModuleServiceQoS(pricing string, qos uint64) {
 		Deposit: sdk.NewCoins(sdk.NewCoin(denom, sdk.NewInt(0))),
 		Pricing: pricing, QoS: qos, Options: `{}`, Available: true, DisabledTime: time.Time{}, Owner: w.a.modSvcProvider,
 	}
+	if op, e := ParsePricingText(pricing); e != nil {
+		b.Pricing = fmt.Sprintf(`{"price":"1%s"}`, denom)
+	} else if !op.timesStorable() {
+		// a host installs only a binding whose promotion times can be stored
+		// (instants between 0001-01-01 and 9999-12-31 UTC); decided by the harness itself
+		b.Pricing = fmt.Sprintf(`{"price":"%s%s"}`, op.BaseRat.FloatString(18), op.Denom)
+	}
 	must(k.SetServiceBindingForGenesis(w.ctx, b))
 	w.Track("modsvc", w.a.modSvcProvider)
 	w.hasModSvc = true
@@ -501,7 +508,13 @@ func (w *World) EndBlock(dt time.Duration) (res StepResult) {
 // are ever changed by the workloads: the timeout bound, tax, slash fraction and the two
 // refund periods - never the minimum deposit terms or the base denomination.
 func (w *World) ChangeParams(p types.Params) (res StepResult) {
-	w.a.k.SetParams(w.ctx, p)
+	// as a governance parameter-change proposal does: straight into the module's parameter
+	// subspace, not through the keeper
+	ss, ok := w.a.app.ParamsKeeper.GetSubspace(types.ModuleName)
+	if !ok {
+		panic("no parameter subspace for the service module")
+	}
+	ss.SetParamSet(w.curCtx(), &p)
 	w.params = p
 	res.OK = true
 	return
